@@ -13,6 +13,12 @@ def run(tier, seed):
     mc = vlib.must_hold(vlib.tlc("ProtoRewrite", "MC_ProtoRewrite.cfg", workers=8),
                         "ProtoRewrite: the algorithm refines the definition (1 field, all kinds)")
     ck.add_mc(mc, "MC_ProtoRewrite")
+    # the algorithm as the code has it (switches off) must violate exactly the theorems behind the open findings
+    for sw, inv, fid in (("FixSplit", "RefinesSplit", "F-C19-2"), ("FixOrLast", "Refines", "F-C19-6")):
+        w = vlib.tlc("ProtoRewrite", "MC_ProtoRewrite.cfg", workers=8, defines={sw: "FALSE"}, tag="ProtoRewrite-asis-" + sw)
+        if w.ok or w.violation != inv:
+            raise vlib.Infra("ProtoRewrite with %s = FALSE should violate %s (finding %s): the model is vacuous" % (sw, inv, fid))
+        ck.add_mc(w, "MC_ProtoRewrite(%s=FALSE: counterexample behind %s)" % (sw, fid))
     rnd = random.Random(seed)
     scal = [k for k in protocommon.ALL_KINDS if not k.startswith("m")]
     sub = sorted(rnd.sample(scal, 3 if thorough else 2) + rnd.sample(["m1", "m2", "m3", "m4"], 2 if thorough else 1))
@@ -40,9 +46,9 @@ def run(tier, seed):
     ck.triage(rr.divs)
     ck.exhaustive = kept == total
     ck.rule = ("TLC enumerates (shape, value, template) triples of spec/ProtoRewrite.tla (every 1-field shape, all 2-field shapes over a "
-               "seeded subset of kinds; templates set scalars, replace repeated and map fields, and rewrite nested messages) with the "
+               "seeded subset of kinds; templates set scalars, replace repeated and map fields, rewrite nested messages, and bit-or integer fields through RewriterRules / BitOr, nested rules included) with the "
                "expected value and five encodings of the input (standard, reordered, overridden, unknown fields, split); the real "
-               "ParseRewriteTemplate / MessageRewriter rewrite each and the result is decoded by the package and by the reference "
+               "ParseRewriteTemplate (with RewriterRules where the template has bit-or entries) / MessageRewriter (with BitOrRewriter) rewrite each and the result is decoded by the package and by the reference "
                "implementation. distinct_nontrivial = distinct vectors")
     ck.assumptions = ["the reference implementation decodes the specification's own rewrite (RewriteAlg) to the expected value on every vector",
                       "templates that name a nested message name at least one of its fields; map templates only for string keys (others are rejected by ParseRewriteTemplate)"]
